@@ -40,7 +40,7 @@ use crate::rule_catalog::RuleCatalog;
 use crate::schema::{RelationSchema, SchemaCatalog, ValidationEngine};
 use crate::statement::{RuleDef, SerializableBodyPred};
 use crate::storage::persist::{
-    consolidate_to_current, to_tuples, FilePersist, PersistBackend, PersistConfig, Update,
+    fold_to_current_set, FilePersist, PersistBackend, PersistConfig, Update,
 };
 use crate::storage::{
     KnowledgeGraphMetadata, KnowledgeGraphsMetadata, StorageError, StorageResult,
@@ -1739,12 +1739,11 @@ impl StorageEngine {
                 // Get shard info to determine since frontier
                 let info = self.persist.shard_info(&shard_name)?;
 
-                // Read and consolidate updates
-                let mut updates = self.persist.read(&shard_name, info.since)?;
-                consolidate_to_current(&mut updates);
-
-                // Extract current tuples (positive multiplicities only)
-                let tuples = to_tuples(&updates);
+                // Read updates and fold them into the current set of tuples. The fold applies
+                // updates in logical-time order with set semantics, mirroring the in-memory
+                // engine (re-inserting a present tuple / deleting an absent one are no-ops).
+                let updates = self.persist.read(&shard_name, info.since)?;
+                let tuples = fold_to_current_set(&updates);
 
                 if !tuples.is_empty() {
                     // Infer schema from first tuple
